@@ -66,7 +66,9 @@ def to_open_api_3_0(schema: JsonSchema) -> Dict[str, Any]:
         else:
             result["type"] = result["type"][0]
     if "examples" in result:
-        result.setdefault("example", result.pop("examples")[0])
+        examples = result.pop("examples")
+        if examples:  # an empty list of examples has no counterpart
+            result.setdefault("example", examples[0])
     if "const" in result:
         result.setdefault("enum", [result.pop("const")])
     return result
